@@ -37,7 +37,7 @@ ASSUMPTIONS = [
 ]
 
 SRC_FL = ["list", "ringlist", "seq", "iter", "agen", "aclass", "aplain", "tuple", "tuplesub", "aeager", "aeagerstop", "reiter", "areiter", "aproxy", "agencoro", "iter_noasync", "iter_hint0", "iter_awaitable", "aclass_awaitable"]
-FN_FL = ["def", "async", "partial", "obj", "objaw", "falsyobj", "eqobj", "unhashobj", "aeqobj", "gencoro", "classaw", "defcoro", "defcoro", "eagercoro"]
+FN_FL = ["def", "async", "partial", "obj", "objaw", "falsyobj", "eqobj", "unhashobj", "aeqobj", "gencoro", "classaw", "defcoro", "defcoro", "eagercoro", "fwddef", "fwdcoro", "fwdcoro"]
 ASYNC_SRC = {"agen", "aclass", "aplain", "aeager", "aeagerstop", "areiter", "aproxy", "agencoro", "aclass_awaitable"}
 ALL = ITER_TOOLS + AGG_TOOLS
 
@@ -123,6 +123,12 @@ def _calls(log):
 def check_one(c, base_view, base_calls=None):
     tool = c["tool"]
     # type oracle: what does the library callable return before awaiting / iterating?
+    if any(f.get("fl") == "fwdcoro" for f in c["fns"].values()):
+        # make sure the library has met the synchronous sibling (same code object, plain results) before
+        import asyncstdlib as a
+        from ..doubles import forward_call
+
+        run(Ctx("a"), a.list(a.map(forward_call(lambda x: x), [0])))
     b = build(c, "a")
     try:
         made = b.tool.make_a(b.S, b.F, b.P, b.V)
